@@ -1489,7 +1489,8 @@ def execute(spec, options, sched_mode=None, knobs=None, defaults=None, label='ma
     finally:
         res.stdout_after = sys.stdout
         res.stderr_after = sys.stderr
-        res.streams_restored = (sys.stdout is out, sys.stderr is err)
+        # (rt.orig_*: the streams the world expects - a test may have wrapped them for good)
+        res.streams_restored = (sys.stdout is rt.orig_stdout, sys.stderr is rt.orig_stderr)
         sys.stdout, sys.stderr, sys.stdin = old
         env.sched.active = False
     if HARNESS_ERRORS:
